@@ -30,6 +30,13 @@ CHECKS = {
              "closed-form integral of the waveform's own sampled time function, plus Parseval with a rigorous total-variation tail bound and "
              "lookup-by-name checks, over amplitudes/phases/offsets/periods of all six wave types.",
         design='5/C08', technique='runtime oracle: closed-form Fourier integral of the sampled time function'),
+    'C06': dict(
+        text="Runtime oracle on open_circuit_impedance / element_impedance / short_circuit_current / Thevenin-Norton objects / Circuit.impedance "
+             "sweeps: compared with a unit-current injection into the exactly solved deactivated reference network, for every sampled ordered "
+             "node pair and element of generated networks (incl. ideal voltage sources away from the port, nodes and node groups hanging on open "
+             "branches); relation monitors on the library's own outputs (symmetry, re-referencing, exact zeros, Isc=Voc/Zth, load test through "
+             "the library's own solver).",
+        design='5/C06', technique='runtime oracle vs exact reference + relation monitors between observed executions'),
 }
 
 NOT_YET = "check not built yet in this round (work in progress; see DESIGN.md section 5)"
